@@ -13,7 +13,10 @@ OUT = os.path.join(HERE, "mutants")
 os.makedirs(OUT, exist_ok=True)
 bad = 0
 for mid, (prop, path, old, new, what) in sorted(MUTANTS.items()):
-    src = open(os.path.join(REPO, path), encoding="utf-8").read()
+    src = open(os.path.join(REPO, path), encoding="utf-8", newline="").read()
+    if "\r\n" in src:          # some files in the repository use CRLF
+        old = old.replace("\n", "\r\n")
+        new = new.replace("\n", "\r\n")
     if src.count(old) != 1:
         print("!! %s: anchor text found %d times in %s" % (mid, src.count(old), path))
         bad += 1
@@ -22,7 +25,8 @@ for mid, (prop, path, old, new, what) in sorted(MUTANTS.items()):
     diff = "".join(difflib.unified_diff(
         src.splitlines(True), dst.splitlines(True),
         "a/" + path, "b/" + path))
-    with open(os.path.join(OUT, "%s-%s.patch" % (mid, prop)), "w") as fh:
+    with open(os.path.join(OUT, "%s-%s.patch" % (mid, prop)), "w",
+              newline="") as fh:
         fh.write("# %s (%s): %s\n" % (mid, prop, what))
         fh.write(diff)
 print("wrote %d mutants, %d failed" % (len(MUTANTS) - bad, bad))
